@@ -8,7 +8,9 @@ ABS = 1e-5
 
 
 def _w(c, key):
-    return 1.0 - c[key] / 100.0
+    """1 - retail waste.  The waste share is the *input* WASTE_RETAIL of the scenario (one value for all foods); the
+    per-food copies the parameter code hands to the optimiser are deliberately not consulted."""
+    return 1.0 - c["inputs"]["WASTE_RETAIL"] / 100.0
 
 
 def _s0(c):
